@@ -140,11 +140,47 @@ var swagger string
 
 // gen generates target t for the spec into dir (same absolute path every time: moved aside by the caller).
 func gen(spec J, dir string, t tgt, extra []string) (core.Result, bool) {
+	return genLayout(spec, dir, t, extra, false)
+}
+
+// splitDoc moves the definitions into a second document, defs.json, that the root document
+// reaches only through $ref: the root keeps no text of the definitions.
+func splitDoc(spec J) (root, ext J) {
+	root = jx.CloneJ(spec)
+	ext = J{"definitions": root["definitions"]}
+	delete(root, "definitions")
+	var walk func(v any)
+	walk = func(v any) {
+		switch x := v.(type) {
+		case J:
+			if r, ok := x["$ref"].(string); ok && strings.HasPrefix(r, "#/definitions/") {
+				x["$ref"] = "defs.json" + r
+			}
+			for _, c := range x {
+				walk(c)
+			}
+		case []any:
+			for _, c := range x {
+				walk(c)
+			}
+		}
+	}
+	walk(root["paths"])
+	return root, ext
+}
+
+func genLayout(spec J, dir string, t tgt, extra []string, split bool) (core.Result, bool) {
 	_ = os.RemoveAll(dir)
 	core.Must(os.MkdirAll(dir, 0o755))
 	core.Must(os.WriteFile(filepath.Join(dir, "go.mod"), []byte("module vfmod/c09\n\ngo 1.21\n"), 0o644))
 	sp := filepath.Join(dir, "spec.json")
-	core.Must(os.WriteFile(sp, jx.Marshal(spec), 0o644))
+	if split {
+		root, ext := splitDoc(spec)
+		core.Must(os.WriteFile(sp, jx.Marshal(root), 0o644))
+		core.Must(os.WriteFile(filepath.Join(dir, "defs.json"), jx.Marshal(ext), 0o644))
+	} else {
+		core.Must(os.WriteFile(sp, jx.Marshal(spec), 0o644))
+	}
 	args := append(append([]string{}, t.args...), "-q", "-f", sp, "-t", dir)
 	args = append(args, extra...)
 	r := core.Run(dir, nil, 5*time.Minute, "", swagger, args...)
@@ -347,20 +383,21 @@ func main() {
 	}
 	// baselines per (worker dir, target, flatten): the neutral rendering at that very path
 	type bkey struct {
-		w    int
-		t, f string
+		w     int
+		t, f  string
+		split bool
 	}
 	baselines := map[bkey]map[string]string{}
 	var bmu sync.Mutex
-	getBase := func(w int, t tgt, fl []string) map[string]string {
-		k := bkey{w, t.name, strings.Join(fl, " ")}
+	getBase := func(w int, t tgt, fl []string, split bool) map[string]string {
+		k := bkey{w, t.name, strings.Join(fl, " "), split}
 		bmu.Lock()
 		b, ok := baselines[k]
 		bmu.Unlock()
 		if ok {
 			return b
 		}
-		r, ok := gen(base(neutral), dirs[w], t, fl)
+		r, ok := genLayout(base(neutral), dirs[w], t, fl, split)
 		if !ok {
 			c.Inconclusive("the neutral document does not generate for %s: %s", t.name, core.OneLine(r.Stderr))
 			return nil
@@ -395,6 +432,8 @@ func main() {
 		pl  payload
 		t   tgt
 		fl  []string
+		// split: the definitions (and the payload) live in a second document reached by $ref
+		split bool
 	}
 	var jobs []job
 	quickPositions := map[string]bool{"info.description": true, "info.title": true, "operation.summary": true, "operation.description": true, "param.query.description": true, "param.body.description": true,
@@ -425,6 +464,31 @@ func main() {
 			}
 		}
 	}
+	// the same text in a document reached only through $ref (the root document stays neutral)
+	var defPositions []string
+	for _, p := range positions {
+		if strings.HasPrefix(p, "schema.") || strings.HasPrefix(p, "property.") || strings.HasPrefix(p, "nested-property.") || strings.HasPrefix(p, "items.") || strings.HasPrefix(p, "additionalProperties.") || strings.HasPrefix(p, "alias-schema.") {
+			defPositions = append(defPositions, p)
+		}
+	}
+	for ti, t := range usedTargets {
+		if t.name == "model-tags" || (!c.Thorough() && ti > 0) {
+			continue
+		}
+		for _, fl := range flatten {
+			for _, b := range breakers {
+				jobs = append(jobs, job{pos: defPositions, pl: b, t: t, fl: fl, split: true})
+			}
+			for _, inj := range injectors {
+				for _, p := range defPositions {
+					if !c.Thorough() && (inj.variant != "call" && inj.variant != "top-level" || !quickPositions[p]) {
+						continue
+					}
+					jobs = append(jobs, job{pos: []string{p}, pl: inj, t: t, fl: fl, split: true})
+				}
+			}
+		}
+	}
 	var mu sync.Mutex
 	ch := make(chan job, len(jobs))
 	for _, j := range jobs {
@@ -438,7 +502,7 @@ func main() {
 			defer wg.Done()
 			var rec func(j job)
 			rec = func(j job) {
-				b := getBase(w, j.t, j.fl)
+				b := getBase(w, j.t, j.fl, j.split)
 				if b == nil {
 					return
 				}
@@ -452,10 +516,15 @@ func main() {
 					}
 					return neutral(pos)
 				})
-				r, ok := gen(spec, dirs[w], j.t, j.fl)
+				r, ok := genLayout(spec, dirs[w], j.t, j.fl, j.split)
 				cfg := j.t.name
 				if len(j.fl) > 0 {
 					cfg += "+full"
+				}
+				pfx := ""
+				if j.split {
+					cfg += "+split"
+					pfx = "split:"
 				}
 				if r.TimedOut {
 					c.Inconclusive("watchdog generating %s", cfg)
@@ -465,12 +534,12 @@ func main() {
 					// an error is an accepted outcome for C09 (C01 judges it); find which positions still generate
 					if len(j.pos) > 1 {
 						mid := len(j.pos) / 2
-						rec(job{j.pos[:mid], j.pl, j.t, j.fl})
-						rec(job{j.pos[mid:], j.pl, j.t, j.fl})
+						rec(job{j.pos[:mid], j.pl, j.t, j.fl, j.split})
+						rec(job{j.pos[mid:], j.pl, j.t, j.fl, j.split})
 						return
 					}
 					mu.Lock()
-					c.Eval(j.pos[0] + "/" + j.pl.family + "." + j.pl.variant + "/" + cfg + "/generation-error")
+					c.Eval(pfx + j.pos[0] + "/" + j.pl.family + "." + j.pl.variant + "/" + cfg + "/generation-error")
 					mu.Unlock()
 					return
 				}
@@ -486,7 +555,7 @@ func main() {
 				if d == "" {
 					mu.Lock()
 					for _, p := range j.pos {
-						c.Eval(p + "/" + j.pl.family + "." + j.pl.variant + "/" + cfg + "/same-code")
+						c.Eval(pfx + p + "/" + j.pl.family + "." + j.pl.variant + "/" + cfg + "/same-code")
 					}
 					if len(j.pos) == 1 {
 						c.Sample(map[string]any{"position": j.pos[0], "payload": j.pl.text, "target": cfg, "verdict": "same declarations and statements as with neutral text"})
@@ -496,20 +565,24 @@ func main() {
 				}
 				if len(j.pos) > 1 {
 					mid := len(j.pos) / 2
-					rec(job{j.pos[:mid], j.pl, j.t, j.fl})
-					rec(job{j.pos[mid:], j.pl, j.t, j.fl})
+					rec(job{j.pos[:mid], j.pl, j.t, j.fl, j.split})
+					rec(job{j.pos[mid:], j.pl, j.t, j.fl, j.split})
 					return
 				}
 				// a single position changes the code: keep the evidence
 				files := map[string]string{"spec.json": string(jx.Marshal(spec)), "difference.txt": d, "payload.txt": j.pl.text}
+				if j.split {
+					root, ext := splitDoc(spec)
+					files["spec.json"], files["defs.json"] = string(jx.Marshal(root)), string(jx.Marshal(ext))
+				}
 				if i := strings.Index(d, ":"); i > 0 {
 					if src, err := os.ReadFile(filepath.Join(dirs[w], d[:i])); err == nil {
 						files["generated_"+filepath.Base(d[:i])+".txt"] = string(src)
 					}
 				}
 				mu.Lock()
-				c.Eval(j.pos[0] + "/" + j.pl.family + "." + j.pl.variant + "/" + cfg + "/code-changed")
-				c.Violation(fmt.Sprintf("C09/%s/%s.%s/%s", j.pos[0], j.pl.family, j.pl.variant, j.t.name),
+				c.Eval(pfx + j.pos[0] + "/" + j.pl.family + "." + j.pl.variant + "/" + cfg + "/code-changed")
+				c.Violation(fmt.Sprintf("C09/%s%s/%s.%s/%s", pfx, j.pos[0], j.pl.family, j.pl.variant, j.t.name),
 					fmt.Sprintf("text at %s changes the generated %s code (generation exits 0): %s", j.pos[0], cfg, d), files)
 				mu.Unlock()
 			}
